@@ -523,15 +523,20 @@ pub fn run(seed: u64, tier: u32) -> Cx {
     let mut cx = Cx::new();
     let mut r = Rng::new(seed ^ 0xD1D1);
     let nh = if tier == 0 { 6 } else { 60 };
-    rt.block_on(async {
-        for i in 0..nh {
-            let o = RunOpts { epochs: if tier == 0 { 5 + (i % 3) * 2 } else { 6 + (i % 5) * 4 }, nlabels: 3 + (i % 4) * 2, query_every: if tier == 0 { 3 } else { 4 }, audits: true, cached: i % 2 == 1, parallel: i % 4 >= 2 };
+    // every third history is driven from a multi-threaded runtime: the tasks which publish spawns (VRF batch,
+    // parallel insertion, preloading) then complete in any order, as they do under a real server's #[tokio::main]
+    let rt_mt = tokio::runtime::Builder::new_multi_thread().worker_threads(4).enable_all().build().unwrap();
+    for i in 0..nh {
+        let mt = i % 3 == 2;
+        let o = RunOpts { epochs: if tier == 0 { 5 + (i % 3) * 2 } else { 6 + (i % 5) * 4 }, nlabels: if mt { 9 } else { 3 + (i % 4) * 2 }, query_every: if tier == 0 { 3 } else { 4 }, audits: true, cached: i % 2 == 1, parallel: i % 4 >= 2 };
+        let fut = async {
             if i % 2 == 0 {
                 one_history::<W>(&mut cx, &mut r, &o).await;
             } else {
                 one_history::<E>(&mut cx, &mut r, &o).await;
             }
-        }
-    });
+        };
+        if mt { rt_mt.block_on(fut) } else { rt.block_on(fut) }
+    }
     cx
 }
